@@ -176,6 +176,8 @@ def rewrite_all_references(
     all_known = set(known_components).union(looped_ids)
     _ = FlowIR.discover_reference_strings(value, owner_component_stage, all_known, out_map)
 
+    rewrites = {}
+
     for match in out_map:
         rewrite = rewrite_reference(out_map[match], binding_values, import_to_stage, owner_component_stage)
 
@@ -199,12 +201,17 @@ def rewrite_all_references(
                     match, rewrite, value
                 ))
 
-        pattern = r'\b' + re.escape(match) + r'\b'
+        rewrites[match] = rewrite
+
+    if rewrites:
+        # VV: Substitute all references in one pass (every occurrence, longest reference first) so that the text of
+        #     one rewritten reference is never rewritten again by the substitution of another reference
+        pattern = '|'.join([r'\b' + re.escape(match) + r'\b' for match in sorted(rewrites, key=len, reverse=True)])
 
         try:
-            value = re.sub(pattern, rewrite, value, 1)
+            value = re.sub(pattern, lambda m: rewrites[m.group(0)], value)
         except Exception:
-            flowirLogger.critical("Failed to res.sub(\"%s\", \"%s\", \"%s\"" % (pattern, rewrite, value))
+            flowirLogger.critical("Failed to res.sub(\"%s\", \"%s\", \"%s\"" % (pattern, rewrites, value))
             raise
 
     return value
